@@ -116,7 +116,7 @@ func main() {
 			}
 		}
 		if len(msgs) > 0 {
-			return false, fmt.Sprintf("%s\nschedule %v\n%s\ntrace: %s", h.describe(c.Faults), c.Choices, strings.Join(msgs, "\n"), clipS(vrt.FormatTrace(out.Trace), 3000))
+			return false, fmt.Sprintf("%s\nschedule %v\n%s\ntrace: %s", h.describe(c.Faults), c.Choices, strings.Join(msgs, "\n"), clipS(vrt.FormatTrace(out.Trace), 1200))
 		}
 		return true, fmt.Sprintf("%s\nschedule %v: %s", h.describe(c.Faults), c.Choices, oc)
 	})
